@@ -17,7 +17,6 @@ import (
 	"os/exec"
 	"path/filepath"
 	"regexp"
-	"sort"
 	"strconv"
 	"strings"
 	"sync"
@@ -263,7 +262,7 @@ func auditEvaluate(c *vlib.Ctx, cs caseSpec, rec auditRecord, accs []access, ver
 				l = append(l, fmt.Sprintf("... and %d more", len(bad)-6))
 				break
 			}
-			l = append(l, a.call+" "+anon.Replace(a.path))
+			l = append(l, a.call+" "+tempSuffix.ReplaceAllString(anon.Replace(a.path), "NNN"))
 		}
 		disc := "outside-access-for-name-inside-root"
 		if rec.Escaping {
@@ -277,7 +276,8 @@ func auditEvaluate(c *vlib.Ctx, cs caseSpec, rec auditRecord, accs []access, ver
 		out += "/clean"
 	}
 	c.Outcome(out)
-	c.Add(0, int64(len(accs)), 1)
+	c.Add(0, 1, 1)
+	c.ExtraAdd("audited_path_syscalls", int64(len(accs))) // varies slightly from run to run (temp-name collisions, runtime)
 	if rec.Escaping {
 		c.Nontrivial(fmt.Sprintf("audit|%s|%s|%v|%s%s", cs.Comp, cs.Op, cs.Chain, cs.Prefix, cs.Rel))
 	}
@@ -393,5 +393,3 @@ func replayAudit(c *vlib.Ctx, cs caseSpec, work string) {
 	}
 	auditEvaluate(c, cs, recs[0], acc[0], true)
 }
-
-var _ = sort.Strings
